@@ -205,6 +205,21 @@ def load_known(prop):
     return [e for e in data.get("findings", []) if e["property"] == prop]
 
 
+def run_script_replays(chk, known):
+    """known-findings entries whose replay is a small python script against the public API:
+    non-zero exit = the defect is present"""
+    for e in known:
+        rp = e.get("replay", {})
+        if rp.get("kind") != "script":
+            continue
+        pr = subprocess.run([PY, "-c", rp["code"]], capture_output=True, text=True, env=pyqasm_env())
+        if pr.returncode != 0:
+            if e["status"] == "known":
+                chk.known("%s: %s" % (e["id"], e["what"][:100]))
+            else:
+                chk.violation("regressed_%s" % e["id"], {"kind": "script", "finding": e, "stderr": pr.stderr[-600:]})
+
+
 def src_fingerprint():
     h = hashlib.sha256()
     for d, _, fs in sorted(os.walk(os.path.join(REPO, "src", "pyqasm"))):
